@@ -231,6 +231,12 @@ def vm_stream(run, progs):
         if a2 == b2:
             agree += 1
             continue
+        # float exponentiation is math.Pow on one side and libm's pow on the other: the last bits of a float result are not
+        # specified by either (trusted base: "float pow"); such results are compared without their lowest 8 mantissa bits
+        if ("**" in src or "^" in src) and re.sub(r"\bf([0-9a-f]{14})[0-9a-f]{2}\b", r"f\1", a2) == re.sub(r"\bf([0-9a-f]{14})[0-9a-f]{2}\b", r"f\1", b2):
+            run.count("vm.float-pow-last-bits")
+            agree += 1
+            continue
         run.violation("correspondence:vm", {"stream": "vm", "source": src, "cfg": cfg, "implementation": a[:500], "model": b[:500],
                                             "replay_line": ln[:200] + "..."})
     st = run.streams.setdefault("vm", {"cases": 0, "agree": 0})
